@@ -15,6 +15,8 @@ pub enum Val {
   Some(Box<Val>),
   /// group announced by group_by: (subject id, key)
   G(i64, Box<Val>),
+  /// a bare tag: "empty", "multi", "end" (results of the conversions)
+  Tag(String),
 }
 
 impl Default for Val {
@@ -36,6 +38,7 @@ impl PartialEq for Val {
       (None, None) => true,
       (Some(a), Some(b)) => a == b,
       (G(a, b), G(c, d)) => a == c && b == d,
+      (Tag(a), Tag(b)) => a == b,
       _ => false,
     }
   }
@@ -170,6 +173,7 @@ impl Val {
       Val::None => json!(["none"]),
       Val::Some(x) => json!(["s", x.to_json()]),
       Val::G(s, k) => json!(["g", s, k.to_json()]),
+      Val::Tag(t) => json!([t]),
     }
   }
 
@@ -186,6 +190,7 @@ impl Val {
       "none" => Val::None,
       "s" => Val::Some(Box::new(Val::from_json(&a[1]))),
       "g" => Val::G(a[1].as_i64().unwrap(), Box::new(Val::from_json(&a[2]))),
+      t if a.len() == 1 => Val::Tag(t.to_string()),
       t => panic!("unknown value tag {t}"),
     }
   }
